@@ -275,7 +275,7 @@ def nearTouch (P Q : List (V2 Rat)) (diam : Rat) : Bool :=
     decide (rmin a.x b.x - τ * diam ≤ v.x) && decide (v.x ≤ rmax a.x b.x + τ * diam) &&
     decide (rmin a.y b.y - τ * diam ≤ v.y) && decide (v.y ≤ rmax a.y b.y + τ * diam)
 
-def oracleCvx (p1 p2 : List (V2 Rat)) (eps : Rat) (out : List (V2 Float)) : String :=
+def oracleCvxR (p1 p2 : List (V2 Rat)) (eps : Rat) (O : List (V2 Rat)) (finite : Bool) : String :=
   if p1.length < 3 || p2.length < 3 then "skip fewer-than-3-vertices" else
   let exact := p1.all isLat2 && p2.all isLat2
   let bb := (p1 ++ p2).foldl (fun (m : Rat) v => rmax m (ninf v)) 0
@@ -286,8 +286,7 @@ def oracleCvx (p1 p2 : List (V2 Rat)) (eps : Rat) (out : List (V2 Float)) : Stri
   let Q := if shoelaceR p2 < 0 then p2.reverse else p2
   let T := trueIntersection P Q
   let At := rabs (shoelaceR T)
-  let O := out.map q2
-  if out.any (fun v => !(FloatIO.isFinite v.x && FloatIO.isFinite v.y)) then "fail non-finite-output" else
+  if !finite then "fail non-finite-output" else
   let Ao := rabs (shoelaceR O)
   let tolA : Rat := diam2 / 1000000000
   -- random inputs that are within rounding of a touching configuration are outside the domain
@@ -302,6 +301,96 @@ def oracleCvx (p1 p2 : List (V2 Rat)) (eps : Rat) (out : List (V2 Float)) : Stri
   | none =>
     if rabs (Ao - At) ≤ tolA then "pass"
     else s!"fail area out={Ao} true={At} (doubled areas) nout={O.length}"
+
+def oracleCvx (p1 p2 : List (V2 Rat)) (eps : Rat) (out : List (V2 Float)) : String :=
+  oracleCvxR p1 p2 eps (out.map q2) (out.all fun v => FloatIO.isFinite v.x && FloatIO.isFinite v.y)
+
+/-- an explicit tolerance is only meaningful when no decision of the algorithm is *inside* the dead-band without being an
+exact tie: some (edge, vertex) doubled area or some (edge, edge) cross product in `(0, 2 eps]` → outside the domain
+("farther than the collinearity epsilon from degeneracy") -/
+def withinEps (P Q : List (V2 Rat)) (eps : Rat) : Bool :=
+  let amb (x : Rat) : Bool := decide (0 < rabs x) && decide (rabs x ≤ 2 * eps)
+  (edgesOf P).any (fun (a, b) => Q.any fun v => amb (area2R a b v)) ||
+  (edgesOf Q).any (fun (a, b) => P.any fun v => amb (area2R a b v)) ||
+  (edgesOf P).any (fun (a, b) => (edgesOf Q).any fun (c, d) => amb (cross2 (b.sub a) (d.sub c)))
+
+/-- `Triangle::contains_point` (2-D): judged off the boundary only.  Exact barycentric signs by Cramer's rule.  On the
+boundary the answer of the real code depends on the orientation of the triangle (theorem `tri_contains_point_iff`) and on
+the sign of a floating-point zero: reported as `skip boundary`. -/
+def oracleTriContains (a b c p : V2 Rat) (out : List String) : String :=
+  let S := area2R a b c
+  let exact := isLat2 p && isLat2 a && isLat2 b && isLat2 c
+  if S = 0 then "skip degenerate-triangle" else
+  let c1 := area2R p b c; let c2 := area2R a p c; let c3 := area2R a b p
+  let diam := ninf (b.sub a) + ninf (c.sub a) + ninf (p.sub a)
+  let err : Rat := if exact then 0 else diam * diam / 1000000000000
+  if !exact && (rabs S ≤ 4 * err || rabs c1 ≤ err || rabs c2 ≤ err || rabs c3 ≤ err) then "skip rounding-sensitive" else
+  let l1 := c1 / S; let l2 := c2 / S; let l3 := c3 / S
+  if l1 = 0 || l2 = 0 || l3 = 0 then
+    (if decide (0 ≤ l1) && decide (0 ≤ l2) && decide (0 ≤ l3) then "skip boundary" else
+      (if out = ["0"] then "pass" else "fail triangle-contains expected=false (outside, on an edge line)"))
+  else
+  let ex := decide (0 < l1) && decide (0 < l2) && decide (0 < l3)
+  if out = [fb ex] then "pass" else s!"fail triangle-contains expected={ex}"
+
+/-! ## convex, callback form: the ordered stream of location pairs -/
+
+def plocP : P (Option (PolyLoc Float)) := do
+  let t ← tok
+  if t = "e" then do let i ← pnat; let j ← pnat; let u ← pfo; let v ← pfo; pure (some (.onEdge i j u v))
+  else if t.startsWith "v" then pure ((t.drop 1).toString.toNat?.map PolyLoc.onVertex)
+  else failure
+
+
+def flocP : PolyLoc Float → String
+  | .onVertex i => s!"v{i}"
+  | .onEdge i j u v => s!"e {i} {j} {ff u} {ff v}"
+
+def modelCvxLocs (p1 p2 : List (V2 Float)) (eps : Float) : String :=
+  let r := convexPolygonsIntersection p1.toArray p2.toArray eps
+  r.foldl (fun s (it : OutPair Float) => s ++ " " ++ (match it with
+    | (some a, some b) => s!"b {flocP a} {flocP b}"
+    | (some a, none) => s!"p {flocP a}"
+    | (none, some b) => s!"q {flocP b}"
+    | (none, none) => "n")) s!"{r.size}"
+
+/-- exact point of a location on a polygon that may be walked in either direction: the edge must join two consecutive
+vertices (`j = i ± 1` cyclically) -/
+def locPointBi (pts : Array (V2 Rat)) : PolyLoc Float → Option (V2 Rat × Bool)
+  | .onVertex i => pts[i]?.map fun p => (p, true)
+  | .onEdge i j u v =>
+    match pts[i]?, pts[j]? with
+    | some a, some b => if j = (i + 1) % pts.size || i = (j + 1) % pts.size then
+        some ((a.smul (q u)).add (b.smul (q v)), FloatIO.isFinite u && FloatIO.isFinite v) else none
+    | _, _ => none
+
+/-- oracle of the callback form: every item is well-formed (indices in range, edges join consecutive vertices), the two
+locations of a `b` item denote the same point, no `(None, None)` is emitted, and the denoted points pass the same
+exact intersection oracle as the point form -/
+def oracleCvxLocs (p1 p2 : List (V2 Rat)) (eps : Rat) (out : List String) : String :=
+  let bb := (p1 ++ p2).foldl (fun (m : Rat) v => rmax m (ninf v)) 0
+  let slack : Rat := (1 + bb) / 100000000
+  let A1 := p1.toArray; let A2 := p2.toArray
+  let item : P (Option (V2 Rat × Bool × Bool)) := do
+    let t ← tok
+    if t = "b" then do
+      let a ← plocP; let b ← plocP
+      pure (match a, b with
+        | some a, some b => match locPointBi A1 a, locPointBi A2 b with
+          | some (x, f1), some (y, f2) => some (x, f1 && f2, rabs (x.x - y.x) ≤ slack && rabs (x.y - y.y) ≤ slack)
+          | _, _ => none
+        | _, _ => none)
+    else if t = "p" then do let a ← plocP; pure (a.bind fun a => (locPointBi A1 a).map fun (x, f) => (x, f, true))
+    else if t = "q" then do let a ← plocP; pure (a.bind fun a => (locPointBi A2 a).map fun (x, f) => (x, f, true))
+    else failure
+  match run (do let cs ← plist item; pend; pure cs) out with
+  | none => "fail malformed-item-stream (a (None, None) pair or an unknown item)"
+  | some cs =>
+    if cs.any Option.isNone then "fail location-out-of-range-or-not-an-edge" else
+    let cs' := cs.filterMap id
+    let verdict := oracleCvxR p1 p2 eps (cs'.map (·.1)) (cs'.all (·.2.1))
+    if verdict.startsWith "skip" then verdict else
+    if !(cs'.all (·.2.2)) then "fail the-two-locations-of-an-intersection-denote-different-points" else verdict
 
 /-! ## non-convex polygon intersection: canonical printing (model side) -/
 
@@ -580,12 +669,6 @@ def parseNcPoints (out : List String) : NcOut :=
     | none => .bad
   | _ => .bad
 
-def plocP : P (Option (PolyLoc Float)) := do
-  let t ← tok
-  if t = "e" then do let i ← pnat; let j ← pnat; let u ← pfo; let v ← pfo; pure (some (.onEdge i j u v))
-  else if t.startsWith "v" then pure ((t.drop 1).toString.toNat?.map PolyLoc.onVertex)
-  else failure
-
 /-- exact point of a location, `none` when an index is out of range or the edge is not `(i, (i+1) % n)` -/
 def locPointR (pts : Array (V2 Rat)) : PolyLoc Float → Option (V2 Rat × Bool)
   | .onVertex i => pts[i]?.map fun p => (p, true)
@@ -650,6 +733,12 @@ def handler (fn : String) : Option Handler :=
       oracle := fun a o => match run (do let p ← pv2; let q' ← pv2; let r ← pv2; let e ← pf; pure (p, q', r, e)) a with
         | some (p, q', r, e) => oracleOrient (q2 p) (q2 q') (q2 r) (q e) o
         | none => "skip bad-args" }
+  | "triangle_orientation" => some {
+      model := fun a => run (do let p ← pv2; let q' ← pv2; let r ← pv2; let e ← pf; pend
+                                pure (fori (triOrientation p q' r e))) a
+      oracle := fun a o => match run (do let p ← pv2; let q' ← pv2; let r ← pv2; let e ← pf; pure (p, q', r, e)) a with
+        | some (p, q', r, e) => oracleOrient (q2 p) (q2 q') (q2 r) (q e) o
+        | none => "skip bad-args" }
   | "segments_intersection2d" | "segments_collinear_vertical" | "segments_collinear_horizontal"
   | "segments_collinear_generic" => some {
       model := fun a => run (do let p ← pv2; let q' ← pv2; let r ← pv2; let s ← pv2; let e ← pf; pend
@@ -678,7 +767,31 @@ def handler (fn : String) : Option Handler :=
       oracle := fun a o => match run (do let p ← pv2; let q' ← pv2; let r ← pv2; let s ← pv2; pure (p, q', r, s)) a with
         | some (p, q', r, s) => oracleInTri (q2 p) (q2 q') (q2 r) (q2 s) o
         | none => "skip bad-args" }
-  | "convex_polygons_intersection_points" | "convex_axis_edge_pair" => some {
+  | "triangle_contains_point" => some {
+      model := fun a => run (do let p ← pv2; let q' ← pv2; let r ← pv2; let s ← pv2; pend
+                                pure (fb (triContainsPoint p q' r s))) a
+      oracle := fun a o => match run (do let p ← pv2; let q' ← pv2; let r ← pv2; let s ← pv2; pure (p, q', r, s)) a with
+        | some (p, q', r, s) => oracleTriContains (q2 p) (q2 q') (q2 r) (q2 s) o
+        | none => "skip bad-args" }
+  | "convex_polygons_intersection" => some {
+      model := fun a => run (do let p1 ← plist pv2; let p2 ← plist pv2; let e ← pf; pend
+                                pure (modelCvxLocs p1 p2 e)) a
+      oracle := fun a o => match run (do let p1 ← plist pv2; let p2 ← plist pv2; let e ← pf; pure (p1, p2, e)) a with
+        | some (p1, p2, e) =>
+          if withinEps (p1.map q2) (p2.map q2) (q e) then "skip decision-inside-the-collinearity-dead-band" else
+          oracleCvxLocs (p1.map q2) (p2.map q2) (q e) o
+        | none => "skip bad-args" }
+  | "convex_points_with_tolerances" => some {
+      model := fun a => run (do let p1 ← plist pv2; let p2 ← plist pv2; let e ← pf; pend
+                                let r := convexPolygonsIntersectionPoints p1.toArray p2.toArray e
+                                pure (r.foldl (fun s v => s ++ " " ++ fv2 v) s!"{r.size}")) a
+      oracle := fun a o => match run (do let p1 ← plist pv2; let p2 ← plist pv2; let e ← pf; pure (p1, p2, e)) a with
+        | some (p1, p2, e) =>
+          if withinEps (p1.map q2) (p2.map q2) (q e) then "skip decision-inside-the-collinearity-dead-band" else
+          withOut (plist (do let x ← pfo; let y ← pfo; pure (⟨x, y⟩ : V2 Float))) o
+            (oracleCvx (p1.map q2) (p2.map q2) (q e))
+        | none => "skip bad-args" }
+  | "convex_polygons_intersection_points" | "convex_axis_edge_pair" | "convex_large_pair" => some {
       model := fun a => run (do let p1 ← plist pv2; let p2 ← plist pv2; pend
                                 let r := convexPolygonsIntersectionPoints p1.toArray p2.toArray defaultCollinearityEps
                                 pure (r.foldl (fun s v => s ++ " " ++ fv2 v) s!"{r.size}")) a
